@@ -788,8 +788,14 @@ static void run_line(char *line) {
 		struct bytes k = parse_bytes(ARG(2));
 		sb_printf(&s, "{\"e\":\"Seek\",\"i\":%d,\"k\":", i); sb_hex(&s, k.p, k.n);
 		check_intact(sl, &s);
-		mtbl_res r = mtbl_iter_seek(sl->it, k.p, k.n);
+		/* seek targets live in one buffer that the caller reuses for every seek on every iterator (same address, new contents;
+		 * overwritten as soon as the call has returned): the library has to take the bytes, not the address */
+		static uint8_t seekbuf[1 << 16];
+		const uint8_t *target = k.p;
+		if (k.n <= sizeof seekbuf) { memcpy(seekbuf, k.p, k.n); target = seekbuf; }
+		mtbl_res r = mtbl_iter_seek(sl->it, target, k.n);
 		sb_printf(&s, ",\"ok\":%s}", r == mtbl_res_success ? "true" : "false");
+		memset(seekbuf, 0xEE, k.n <= sizeof seekbuf ? k.n : 0);
 		memset(k.p, 0xEE, k.n);
 		free(k.p);
 	} else if (!strcmp(op, "it_destroy")) {
